@@ -1,11 +1,113 @@
-/- Driver ops for C13. -/
+/- Driver ops for C13 (direct Fourier transform).  Everything runs on `Float` with `Float.cos`,
+   `Float.sin` and π = 3.141592653589793 (the model's `cos`/`sin`/`pi` parameters). -/
 import Driver.Loop
+import Model.DFT
+import Model.Fit
 
 open Lean Model
+open Model.Impl.DFT
 
 namespace Driver.C13
 
-def ops : List (String × Op) := []
+instance : NatCast Float := ⟨Float.ofNat⟩
+
+def piF : Float := 3.141592653589793
+
+def getPairF (j : Json) : Except String (Float × Float) := do
+  match ← getList getFloat j with
+  | [a, b] => pure (a, b)
+  | _ => throw "expected pair"
+
+def getCxF (j : Json) : Except String (Cx Float) := do
+  let (a, b) ← getPairF j
+  pure ⟨a, b⟩
+
+def pairToJsonF (p : Float × Float) : Json := floatsToJson [p.1, p.2]
+def cxToJson (c : Cx Float) : Json := floatsToJson [c.re, c.im]
+
+def getKeep (j : Json) : Except String (Float → Bool) := do
+  match ← getStr (fieldD j "keep" (Json.str "nonzero")) with
+  | "nonzero" => pure keepNonzero
+  | "positive" => pure keepPositive
+  | _ => throw "bad keep"
+
+/-- the radian grid: given explicitly (`grid`) or derived from mask + scales + origin as
+    `TransformerDFT.__init__` does. -/
+def getGrid (j : Json) : Except String (List (Float × Float)) := do
+  match fieldD j "grid" Json.null with
+  | Json.null =>
+    let m ← getMask (← field j "mask")
+    let sc ← getPairF (← field j "pixel_scales")
+    let o ← getPairF (← field j "origin")
+    pure (transformerGrid piF m sc.1 sc.2 o.1 o.2)
+  | g => getList getPairF g
+
+def getMatF (j : Json) : Except String (List (List Float)) := getList getFloats j
+
+def checkMat (M : List (List Float)) (nRows nCols : Nat) : Except String Unit :=
+  if M.length ≠ nRows || M.any (·.length ≠ nCols) then throw "shape_mismatch" else pure ()
+
+/-- grid, visibilities of an image, adjoint image of visibilities, transformed mapping matrix. -/
+def transformer : Op := fun j => do
+  let grid ← getGrid j
+  let uv ← getList getPairF (← field j "uv")
+  let preload ← getBool (← field j "preload")
+  let keep ← getKeep j
+  let mut out : List (String × Json) := [("grid", listToJson pairToJsonF grid)]
+  match fieldD j "image" Json.null with
+  | Json.null => pure ()
+  | ij =>
+    let image ← getFloats ij
+    if image.length ≠ grid.length then throw "shape_mismatch"
+    out := out ++ [("visibilities",
+      listToJson cxToJson (visibilitiesFrom Float.cos Float.sin piF preload image grid uv))]
+  match fieldD j "vis" Json.null with
+  | Json.null => pure ()
+  | vj =>
+    let vis ← getList getCxF vj
+    if vis.length ≠ uv.length then throw "shape_mismatch"
+    out := out ++ [("image", floatsToJson (imageFrom Float.cos Float.sin piF grid uv vis))]
+  match fieldD j "M" Json.null with
+  | Json.null => pure ()
+  | mj =>
+    let M ← getMatF mj
+    let nCols ← getNat (← field j "n_cols")
+    checkMat M grid.length nCols
+    out := out ++ [("transformed", listToJson (listToJson cxToJson)
+      (transformMappingMatrix keep Float.cos Float.sin piF preload M nCols grid uv))]
+  pure (obj out)
+
+/-- InversionInterferometerMapping.data_vector / curvature_matrix for a list of linear objects. -/
+def normalEq : Op := fun j => do
+  let grid ← getGrid j
+  let uv ← getList getPairF (← field j "uv")
+  let preload ← getBool (← field j "preload")
+  let keep ← getKeep j
+  let vis ← getList getCxF (← field j "data")
+  let noise ← getList getCxF (← field j "noise")
+  let diag ← getFloat (← field j "diag_value")
+  let objsJ ← getArr (← field j "objs")
+  if vis.length ≠ uv.length || noise.length ≠ uv.length then throw "shape_mismatch"
+  let mut Ts : List (List (List (Cx Float))) := []
+  let mut lin : List (Impl.Fit.LinObj Float) := []
+  for oj in objsJ do
+    let M ← getMatF (← field oj "M")
+    let nCols ← getNat (← field oj "n_cols")
+    let hasReg ← getBool (← field oj "has_reg")
+    checkMat M grid.length nCols
+    Ts := Ts ++ [transformMappingMatrix keep Float.cos Float.sin piF preload M nCols grid uv]
+    lin := lin ++ [{ params := nCols, reg := if hasReg then some [] else none }]
+  let T := hstack uv.length Ts
+  let nCols := Impl.Fit.totalParams lin
+  let noReg := Impl.Fit.noRegularizationIndexList lin
+  let D := tabulate nCols (dataVector T uv.length nCols vis noise)
+  let F := tabulate2 nCols nCols (curvatureMatrix T uv.length noise noReg diag)
+  pure (obj [("operated_mapping_matrix", listToJson (listToJson cxToJson) T),
+             ("data_vector", floatsToJson D),
+             ("curvature_matrix", listToJson floatsToJson F),
+             ("no_regularization_index_list", natsToJson noReg)])
+
+def ops : List (String × Op) := [("c13.transformer", transformer), ("c13.normal_eq", normalEq)]
 
 end Driver.C13
 
